@@ -169,6 +169,49 @@ def guard_start(prog, res):
                          "%s can start a device that is not Armed (running or unconfigured): a device is started twice without a stop in between" % fname)
 
 
+def identifier_equality(prog, res, rule="R-IDENT-EQ"):
+    """The controllers decide "same device as before" with a helper comparing
+    two DeviceIdentifiers; it must be true exactly when driver_id and
+    device_id both agree (linear-relations analysis of the helper): a weaker
+    test keeps a device open that should have been exchanged, a stronger one
+    re-opens a device that is in use."""
+    from .. import linear as L
+    n = 0
+    for f in prog.all_funcs():
+        ps = f.params
+        if len(ps) != 2 or not all(p.get("r") == "DeviceIdentifier" and p.get("pd") for p in ps) or not f.blocks:
+            continue
+        if not f.file.endswith((".c", ".cpp")) or "runtime" not in f.file:
+            continue
+        n += 1
+        res.touched(f)
+        an = L.Analysis(prog)
+        bad = None
+        for rv, st in an.run(f, L.State()):
+            a, b = ps[0]["n"], ps[1]["n"]
+            d1 = L.lsub(an.read(st, "%s->driver_id" % a), an.read(st, "%s->driver_id" % b))
+            d2 = L.lsub(an.read(st, "%s->device_id" % a), an.read(st, "%s->device_id" % b))
+            if rv is None or not L.is_const(rv):
+                bad = "returns a value that is not decided by the comparison"
+                continue
+            if rv.get(L.ONE, 0) != 0:
+                if not (st.entails_eq(d1) and st.entails_eq(d2)):
+                    bad = "can answer 'same device' although driver_id or device_id differ"
+            else:
+                s2 = st.copy()
+                s2.cons += [("eq", d1), ("eq", d2)]
+                if s2.feasible():
+                    bad = "can answer 'different device' for identical identifiers"
+        inst = "%s (%s): true exactly when driver_id and device_id agree" % (f.name, f.file.split("/")[-1])
+        if bad:
+            res.fail(rule, inst, "%s|%s|%s" % (rule, f.file.split("/")[-1], f.name), f.loc(),
+                     "%s %s: on re-configuration the previous device is kept / re-opened wrongly" % (f.name, bad))
+        else:
+            res.oblige(rule, inst, True, "", f.loc())
+    if n < 2:
+        raise AnalysisBroken("identifier comparison helpers of source and sink not found")
+
+
 def append_only_from_sink(prog, res):
     callers = set()
     for f in prog.all_funcs():
@@ -299,6 +342,8 @@ def run(ctx, res):
     res.extra["exhaustive"] = True
     guard_start(prog, res)
     append_only_from_sink(prog, res)
+    res.guard(identifier_equality, prog, res)
+    res.require_min("R-IDENT-EQ", 2)
     shutdown_order(prog, res)
     state_from_flags(prog, res)
     if ctx.tier == "thorough":
